@@ -379,12 +379,25 @@ func (w *World) runOutcome(ctx context.Context, kind string, status int, r *work
 			continue
 		case "e":
 			*r.Object = MkObj(-31337)
-			return 0, errors.New("err-" + parts[1])
+			// a failing function may well return a status next to its error ("return StatusFailed, err"): the status of a
+			// failed invocation means nothing and must not be acted on. The first declared destination is returned, so that
+			// code which does act on it produces a LEGAL-looking transition.
+			return St(w.declaredDest(kind, status)), errors.New("err-" + parts[1])
 		default:
 			*r.Object = MkObj(-31337)
-			return 0, errors.New("err-x")
+			return St(w.declaredDest(kind, status)), errors.New("err-x")
 		}
 	}
+}
+
+// declaredDest: the first destination declared for (kind, status), 0 when there is none
+func (w *World) declaredDest(kind string, status int) int {
+	for _, bc := range w.Cfg.Calls {
+		if bc.Kind == kind && bc.From == status && len(bc.Dests) > 0 {
+			return bc.Dests[0]
+		}
+	}
+	return 0
 }
 
 func (w *World) stepFn(status int) workflow.ConsumerFunc[Obj, St] {
